@@ -1252,10 +1252,14 @@ def check_recursion(rep, fx, reach):
     for v in sorted(g):
         if v not in index:
             sc(v)
+    vocab = inline.rule_vocabulary()
     for comp in comps:
-        key = 'C08:recursion:' + '+'.join(short(c).split('::')[-1] if len(comp) > 1 else c for c in comp)
-        why_ok = RECURSION_REVIEWED.get(comp[0]) if len(comp) == 1 else None
-        f0 = fx.fns[comp[0]]
+        # a cycle is identified by the functions somebody names; private helpers pulled out of (or into) it are part of the same
+        # recursion: `f -> f` and `f -> f_item -> f` are one obligation
+        named = [c for c in comp if c in RECURSION_REVIEWED or c in vocab] or comp
+        key = 'C08:recursion:' + '+'.join(short(c).split('::')[-1] if len(named) > 1 else c for c in named)
+        why_ok = RECURSION_REVIEWED.get(named[0]) if len(named) == 1 else None
+        f0 = fx.fns[named[0]]
         rep.add('C08', key, why_ok is not None, 'D-REVIEWED recursion: ' + (why_ok or '') if why_ok else
                 'functions %s call each other without a bound on the depth that a limit could enforce: nesting in the input alone '
                 'drives the native stack to exhaustion' % [short(c) for c in comp], comp[0], f0.j['span'])
